@@ -223,6 +223,8 @@ package diam
 //@   ensures [C02] length_delta: m.Header.MessageLength == old(m.Header.MessageLength) + uint32(avplen(a))
 //@   ensures [C02] appended: len(m.AVP) == old(len(m.AVP)) + 1 && m.AVP[old(len(m.AVP))] == a
 //@   ensures [C02] kept: forall i int :: 0 <= i && i < old(len(m.AVP)) ==> m.AVP[i] == old(m.AVP[i])
+//@   ensures in_place_or_new_array: grown(m.AVP, old(m.AVP))
+//@   ensures head_kept: (old(len(m.AVP)) > 0 ==> m.AVP[0] == old(m.AVP[0])) && (old(len(m.AVP)) > 1 ==> m.AVP[1] == old(m.AVP[1])) && (old(len(m.AVP)) > 2 ==> m.AVP[2] == old(m.AVP[2]))
 //@ end
 //@
 //@ func (*Message).InsertAVP(m, a)
@@ -249,6 +251,8 @@ package diam
 //@   ensures [C02] appended: err == nil ==> len(m.AVP) == old(len(m.AVP)) + 1 && m.AVP[old(len(m.AVP))] == a
 //@   ensures [C02] kept: err == nil ==> forall i int :: 0 <= i && i < old(len(m.AVP)) ==> m.AVP[i] == old(m.AVP[i])
 //@   ensures [C02] failed: err != nil ==> m.Header.MessageLength == old(m.Header.MessageLength) && len(m.AVP) == old(len(m.AVP))
+//@   ensures in_place_or_new_array: grown(m.AVP, old(m.AVP))
+//@   ensures head_kept: (old(len(m.AVP)) > 0 ==> m.AVP[0] == old(m.AVP[0])) && (old(len(m.AVP)) > 1 ==> m.AVP[1] == old(m.AVP[1])) && (old(len(m.AVP)) > 2 ==> m.AVP[2] == old(m.AVP[2]))
 //@ end
 //@
 //@ # C16: an answer mirrors its request
@@ -265,6 +269,8 @@ package diam
 //@           typeis(nm.AVP[0].Data, datatype.Unsigned32) && uint32(nm.AVP[0].Data.(datatype.Unsigned32)) == resultCode
 //@   ensures [C16] no_result_code: resultCode == 0 ==> len(nm.AVP) == 0
 //@   ensures [C16] stream: nm.stream == m.stream
+//@   ensures dictionary: nm.dictionary == (m.dictionary != nil ? m.dictionary : dict.Default) && pwf(nm.dictionary)
+//@   ensures own_list: cap(nm.AVP) == 0 || fresh(nm.AVP)
 //@   ensures [C02] length: nm.Header.MessageLength == uint32(resultCode != 0 ? 32 : 20)
 //@   replay hop_by_hop_mirrored: r0.Header.HopByHopID == RECV.Header.HopByHopID
 //@   replay end_to_end_mirrored: r0.Header.EndToEndID == RECV.Header.EndToEndID
@@ -542,10 +548,14 @@ package diam
 //@   ensures [C16] on_the_given_stream: implements(writer, MultistreamWriter) ==> wstream(writer) == stream
 //@ end
 //@
+//@ # ghost: the message most recently handed to WriteTo for this writer (what the state machine's contracts talk about)
+//@ ghost lastsent(io.Writer) *diam.Message
 //@ func (*Message).WriteTo(m, writer) (n, err)
 //@   property C07 C16
 //@   requires serialisable(m) && writer != nil && 0 <= written(writer) && written(writer) < 1<<44
-//@   modifies written(writer), wstream(writer), wlog(writer)[written(writer):written(writer)+20+sumlen(m.AVP, len(m.AVP))], bufslice(any), bytes(any), inpool(any)
+//@   modifies written(writer), wstream(writer), wlog(writer)[written(writer):written(writer)+20+sumlen(m.AVP, len(m.AVP))], bufslice(any), bytes(any), inpool(any), lastsent(writer)
+//@   ghostset lastsent(writer) = m
+//@   ensures message_noted: lastsent(writer) == m
 //@   ensures [C07] complete_on_success: err == nil ==> n == int64(20 + sumlen(m.AVP, len(m.AVP))) && written(writer) == old(written(writer)) + 20 + sumlen(m.AVP, len(m.AVP))
 //@   ensures [C16] answer_goes_to_the_request_stream: implements(writer, MultistreamWriter) ==> wstream(writer) == m.stream
 //@ end
